@@ -1,9 +1,10 @@
 CONSTANTS
   MaxDoc = 5
   MaxPre = 3
+  MaxPre2 = 2
   MaxMid = 1
-  Lits1 = {"E", "A", "Aa", "B", "Ba", "TR", "TRa"}
-  Lits2 = {"B2", "X2", "Aa2"}
+  Lits1 = {"E", "A", "Aa", "B", "TR", "TRa"}
+  Lits2 = {"X2", "Aa2", "B2"}
   Alphabet = {97, 233, 20320, 128512, 10}
 INIT Init
 NEXT Next
